@@ -44,6 +44,7 @@ const (
 
 	sharpByte    = '#'
 	charSlash    = '/'
+	charFirst    = 'F'
 	charDone     = 'C'
 	vectorByte   = 'V'
 	binaryByte   = 'b'
@@ -167,6 +168,18 @@ const (
 		"................................" + // 0xa0
 		"................................" + // 0xc0
 		"................................#" //  0xe0
+
+	// The character after #\ is taken as it is, whatever it is.
+	//   0123456789abcdef0123456789abcdef
+	charFirstMode = "" +
+		"FFFFFFFFFFFFFFFFFFFFFFFFFFFFFFFF" + // 0x00
+		"FFFFFFFFFFFFFFFFFFFFFFFFFFFFFFFF" + // 0x20
+		"FFFFFFFFFFFFFFFFFFFFFFFFFFFFFFFF" + // 0x40
+		"FFFFFFFFFFFFFFFFFFFFFFFFFFFFFFFF" + // 0x60
+		"FFFFFFFFFFFFFFFFFFFFFFFFFFFFFFFF" + // 0x80
+		"FFFFFFFFFFFFFFFFFFFFFFFFFFFFFFFF" + // 0xa0
+		"FFFFFFFFFFFFFFFFFFFFFFFFFFFFFFFF" + // 0xc0
+		"FFFFFFFFFFFFFFFFFFFFFFFFFFFFFFFFf" //  0xe0
 
 	//   0123456789abcdef0123456789abcdef
 	charMode = "" +
@@ -678,6 +691,8 @@ func (r *reader) read(src []byte) {
 			r.mode = sharpMode
 		case charSlash:
 			r.tokenStart = r.pos + 1
+			r.mode = charFirstMode
+		case charFirst:
 			r.mode = charMode
 		case charDone:
 			r.pushChar(src)
@@ -812,7 +827,7 @@ func (r *reader) read(src []byte) {
 			r.raise("escaped character not terminated")
 		case symbolMode:
 			r.partial("|symbol| not terminated")
-		case charMode:
+		case charMode, charFirstMode:
 			r.pushChar(src)
 		case intMode:
 			r.pushInteger(src)
